@@ -156,7 +156,8 @@ type bhInstr struct {
 	K     uint64    `json:"k,omitempty"`
 	V     uint64    `json:"v,omitempty"`
 	T     int       `json:"t,omitempty"` // balance / call target (actor)
-	A     string    `json:"a,omitempty"` // value
+	A     string    `json:"a,omitempty"` // value; for a precompile call also the amount argument
+	NV    bool      `json:"nv,omitempty"` // precompile call: attach no value (A is the amount argument only)
 	Catch bool      `json:"catch,omitempty"`
 	B     []bhInstr `json:"b,omitempty"`
 	M     string    `json:"m,omitempty"` // precompile method
@@ -746,7 +747,11 @@ func (r *Replica) encodeProgram(body []bhInstr) ([]byte, error) {
 			if err != nil {
 				return nil, err
 			}
-			out = append(out, encCall(flags, t.Bytes(), bigA(in.A), data)...)
+			val := bigA(in.A)
+			if in.NV {
+				val = big.NewInt(0) // value attached to a stateful precompile makes its flush fail (K5): most calls attach none
+			}
+			out = append(out, encCall(flags, t.Bytes(), val, data)...)
 		default:
 			return nil, fmt.Errorf("bad instr %q", in.Op)
 		}
@@ -908,7 +913,11 @@ func (r *Replica) buildTx(ctx sdk.Context, t bhTx) ([]byte, error) {
 		}
 		msgs = []sdk.Msg{erc20types.NewMsgConvertERC20(intA(t.A), toAcc, pair.GetERC20Contract(), bhUserEth[f])}
 	case "authzgrant":
-		sa, err := stakingtypes.NewStakeAuthorization([]sdk.ValAddress{valOper(t.V)}, nil, stakingtypes.AuthorizationType_AUTHORIZATION_TYPE_DELEGATE, nil)
+		at := stakingtypes.AuthorizationType_AUTHORIZATION_TYPE_DELEGATE
+		if t.S == "undelegate" {
+			at = stakingtypes.AuthorizationType_AUTHORIZATION_TYPE_UNDELEGATE
+		}
+		sa, err := stakingtypes.NewStakeAuthorization([]sdk.ValAddress{valOper(t.V)}, nil, at, nil)
 		if err != nil {
 			return nil, err
 		}
